@@ -447,3 +447,64 @@ fn promote_container_to_array(container: &Container, hll_type: HllType, lg_confi
         }
     }
 }
+
+#[cfg(feature = "verif-hooks")]
+impl HllSketch {
+    /// Verification hook: feed a raw coupon exactly as `update` would after hashing.
+    pub fn verif_update_with_coupon(&mut self, coupon: u32) {
+        self.update_with_coupon(coupon);
+    }
+
+    /// Verification hook: dump the internal state as plain data.
+    pub fn verif_state(&self) -> crate::verif::HllState {
+        use crate::verif::HllState;
+        let mut st = HllState {
+            lg_k: self.lg_config_k,
+            mode: 0,
+            target_bits: match self.target_type() {
+                HllType::Hll4 => 4,
+                HllType::Hll6 => 6,
+                HllType::Hll8 => 8,
+            },
+            lg_arr: 0,
+            coupon_count: 0,
+            coupon_table: vec![],
+            registers: vec![],
+            raw_nibbles: vec![],
+            aux: vec![],
+            cur_min: 0,
+            num_at_cur_min: 0,
+            hip_accum: 0.0,
+            kxq0: 0.0,
+            kxq1: 0.0,
+            out_of_order: false,
+        };
+        match &self.mode {
+            Mode::List { list, .. } => {
+                st.mode = 0;
+                st.lg_arr = list.container().lg_size() as u8;
+                st.coupon_count = list.container().len();
+                st.coupon_table = list.container().coupons.to_vec();
+            }
+            Mode::Set { set, .. } => {
+                st.mode = 1;
+                st.lg_arr = set.container().lg_size() as u8;
+                st.coupon_count = set.container().len();
+                st.coupon_table = set.container().coupons.to_vec();
+            }
+            Mode::Array4(arr) => {
+                st.mode = 2;
+                arr.verif_fill(&mut st);
+            }
+            Mode::Array6(arr) => {
+                st.mode = 2;
+                arr.verif_fill(&mut st);
+            }
+            Mode::Array8(arr) => {
+                st.mode = 2;
+                arr.verif_fill(&mut st);
+            }
+        }
+        st
+    }
+}
